@@ -120,15 +120,33 @@ var emIsPats = []string{
 
 // patterns with variables: a small oracle of their own
 var emVarPats = []struct {
-	pat string
-	ok  func(t types.Type) bool
+	kind string
+	pat  string
+	ok   func(t types.Type) bool
 }{
-	{"[]$_", func(t types.Type) bool { _, ok := types.Unalias(t).(*types.Slice); return ok }},
-	{"map[$t]$t", func(t types.Type) bool {
+	// what tells same-named local types apart is their underlying type
+	{"uis", "struct{io.Reader}", func(t types.Type) bool {
+		s, ok := t.Underlying().(*types.Struct)
+		if !ok || s.NumFields() != 1 {
+			return false
+		}
+		n, ok := types.Unalias(s.Field(0).Type()).(*types.Named)
+		return ok && n.Obj().Pkg() != nil && n.Obj().Pkg().Path() == "io" && n.Obj().Name() == "Reader"
+	}},
+	{"uis", "struct{$_}", func(t types.Type) bool {
+		s, ok := t.Underlying().(*types.Struct)
+		return ok && s.NumFields() == 1
+	}},
+	{"uis", "int", func(t types.Type) bool {
+		b, ok := t.Underlying().(*types.Basic)
+		return ok && b.Kind() == types.Int
+	}},
+	{"is", "[]$_", func(t types.Type) bool { _, ok := types.Unalias(t).(*types.Slice); return ok }},
+	{"is", "map[$t]$t", func(t types.Type) bool {
 		m, ok := types.Unalias(t).(*types.Map)
 		return ok && types.Identical(m.Key(), m.Elem())
 	}},
-	{"[]*$_", func(t types.Type) bool {
+	{"is", "[]*$_", func(t types.Type) bool {
 		s, ok := types.Unalias(t).(*types.Slice)
 		if !ok {
 			return false
@@ -136,11 +154,11 @@ var emVarPats = []struct {
 		_, ok = types.Unalias(s.Elem()).(*types.Pointer)
 		return ok
 	}},
-	{"func($_) $_", func(t types.Type) bool {
+	{"is", "func($_) $_", func(t types.Type) bool {
 		s, ok := types.Unalias(t).(*types.Signature)
 		return ok && s.Params().Len() == 1 && s.Results().Len() == 1 && !s.Variadic()
 	}},
-	{"*$_", func(t types.Type) bool { _, ok := types.Unalias(t).(*types.Pointer); return ok }},
+	{"is", "*$_", func(t types.Type) bool { _, ok := types.Unalias(t).(*types.Pointer); return ok }},
 }
 
 var emIfaces = []string{"io.Reader", "io.Writer", "io.WriterTo", "fmt.Stringer", "error", "io.ReadWriter"}
@@ -252,7 +270,7 @@ func emMatrix(tmp string, seed int64) *emOut {
 		}
 	}
 	for _, vp := range emVarPats {
-		rules = append(rules, emRule{Kind: "is", Spec: vp.pat, ok: vp.ok})
+		rules = append(rules, emRule{Kind: vp.kind, Spec: vp.pat, ok: vp.ok})
 	}
 	for _, s := range emCustomTypes {
 		rules = append(rules, emRule{Kind: "customIdentical", Spec: s})
@@ -445,8 +463,10 @@ func emMatrix(tmp string, seed int64) *emOut {
 					r.ok = func(t types.Type) bool { return types.Identical(pt, t) }
 				}
 			case "uis":
-				pt := sc.Lookup(fmt.Sprintf("pt%d", patIdx[r.Spec])).Type()
-				r.ok = func(t types.Type) bool { return types.Identical(pt, t.Underlying()) }
+				if r.ok == nil {
+					pt := sc.Lookup(fmt.Sprintf("pt%d", patIdx[r.Spec])).Type()
+					r.ok = func(t types.Type) bool { return types.Identical(pt, t.Underlying()) }
+				}
 			case "customIdentical":
 				nt := findNamed(r.Spec)
 				r.ok = func(t types.Type) bool { return types.Identical(nt, t) }
